@@ -6,7 +6,8 @@ For each: (1) patch applies to /repo HEAD, (2) the whole test-suite passes with 
 import json, os, shutil, subprocess, sys, tempfile
 from pathlib import Path
 
-SRC = Path(sys.argv[1]); ONLY = set(sys.argv[2:])
+SRC = Path(sys.argv[1]); ONLY = set(a for a in sys.argv[2:] if not a.startswith("--"))
+RENAME = {"A": "C", "B": "D"} if "--wave2" in sys.argv else {"A": "A", "B": "B"}
 OUT = Path("/verif/seeded")
 wt = Path(tempfile.mkdtemp(prefix="confirm_wt_")) / "wt"
 subprocess.run(["git", "-C", "/repo", "worktree", "add", "-q", "--detach", str(wt), "HEAD"], check=True)
@@ -15,7 +16,7 @@ def sh(cmd, **kw):
     return subprocess.run(cmd, shell=True, cwd=wt, env=env, capture_output=True, text=True, **kw)
 try:
     for pd in sorted(SRC.glob("C*/[AB]")):
-        sid = pd.parent.name + pd.name
+        sid = pd.parent.name + RENAME[pd.name]
         if ONLY and sid not in ONLY and pd.parent.name not in ONLY:
             continue
         if not (pd / "patch.diff").exists() or not (pd / "demo.py").exists():
